@@ -23,6 +23,8 @@
 name: handle_boolean.true
 define: U_BOOL, U_B_TRUE
 src: options.c
+native: options
+native_includes: options.c
 enforce: handle_boolean
 backend: sat
 timeout: 120
@@ -31,6 +33,8 @@ timeout: 120
 name: handle_boolean.false
 define: U_BOOL, U_B_FALSE
 src: options.c
+native: options
+native_includes: options.c
 enforce: handle_boolean
 backend: sat
 timeout: 120
@@ -39,6 +43,8 @@ timeout: 120
 name: handle_boolean.other
 define: U_BOOL, U_B_OTHER
 src: options.c
+native: options
+native_includes: options.c
 enforce: handle_boolean
 backend: sat
 timeout: 120
@@ -47,6 +53,8 @@ timeout: 120
 name: handle_integer
 define: U_INT, U_INT_FITS
 src: options.c
+native: options
+native_includes: options.c
 enforce: handle_integer
 giflags: --restrict-function-pointer handle_integer.function_pointer_call.1/vopt_help
 backend: sat
@@ -56,6 +64,8 @@ timeout: 120
 name: handle_integer.range
 define: U_INT
 src: options.c
+native: options
+native_includes: options.c
 enforce: handle_integer
 giflags: --restrict-function-pointer handle_integer.function_pointer_call.1/vopt_help
 backend: sat
@@ -65,6 +75,8 @@ timeout: 120
 name: handle_string
 define: U_STR
 src: options.c
+native: options
+native_includes: options.c
 enforce: handle_string
 backend: sat
 timeout: 120
@@ -73,6 +85,8 @@ timeout: 120
 name: handle_arglist.rest
 define: U_ARGS, U_ARGS_NARROW, VOPT_UNREGISTERED_STRINGS_ASSUMED, VOPT_STRDUP_ARENA
 src: options.c
+native: options
+native_includes: options.c
 enforce: handle_arglist
 backend: sat
 loops: 1
@@ -82,6 +96,8 @@ timeout: 200
 name: handle_arglist.rest_wide
 define: U_ARGS, VOPT_UNREGISTERED_STRINGS_ASSUMED, VOPT_STRDUP_ARENA
 src: options.c
+native: options
+native_includes: options.c
 enforce: handle_arglist
 backend: sat
 loops: 1
@@ -91,6 +107,8 @@ timeout: 200
 name: check_bad_wrap
 define: U_WRAP
 src: options.c
+native: options
+native_includes: options.c
 enforce: find_short_option
 giflags: --restrict-function-pointer find_short_option.function_pointer_call.1/vopt_help
 backend: sat
